@@ -6,6 +6,7 @@ author's demo must exit 1 on the patched tree and 0 on the clean tree.  Confirme
 /verif/seeded/<PROP>/<name>/{patch.diff,demo.py,meta.json}.
 """
 import json
+import os
 import re
 import shutil
 import subprocess
@@ -28,7 +29,7 @@ def main():
         wt = ROOT / prop
         for diff in sorted((wt / "out").glob("m*.diff")):
             name = diff.stem
-            dest = SEEDED / prop / name
+            dest = SEEDED / prop / (os.environ.get("SEED_PREFIX", "") + name)
             if dest.exists():
                 continue
             demo = wt / "out" / f"{name}.demo.py"
